@@ -324,3 +324,52 @@ Proof.
   exists m'. split; [exact E|]. apply first_common_in in Hf as [Hc Hs].
   split; [exact Hc|]. apply advertised_spec. exact Hs.
 Qed.
+
+(* ---------- one level up: the children of <stream:features/> ---------- *)
+Lemma advertised_in_spec nodes m :
+  In m (advertised_in nodes) <->
+  exists children, In (s_ns_sasl, s_mechanisms, children) nodes /\ In (s_ns_sasl, s_mechanism, m) children.
+Proof.
+  unfold advertised_in. rewrite in_flat_map. split.
+  - intros ([[ns loc] ch] & Hin & Hm). apply filter_In in Hin as [Hin Hf].
+    cbn in Hf. apply andb_true_iff in Hf as [H1 H2].
+    apply str_eqb_eq in H1. apply str_eqb_eq in H2. subst.
+    exists ch. split; [exact Hin|]. apply advertised_spec. exact Hm.
+  - intros (ch & Hin & Hm). exists (s_ns_sasl, s_mechanisms, ch). split.
+    + apply filter_In. split; [exact Hin|]. reflexivity.
+    + apply advertised_spec. exact Hm.
+Qed.
+
+(* several SASL lists in one features element: their mechanisms are all advertised, in
+   document order *)
+Lemma advertised_in_app a b : advertised_in (a ++ b) = advertised_in a ++ advertised_in b.
+Proof. unfold advertised_in. rewrite filter_app, flat_map_app. reflexivity. Qed.
+
+Lemma nodes_no_sasl_list k nodes user secret w r :
+  (forall m children, In m (cred_mechs k) -> In (s_ns_sasl, s_mechanisms, children) nodes ->
+                      ~ In (s_ns_sasl, s_mechanism, m) children) ->
+  auth_sasl_nodes k nodes user secret w r = ([], ErrPermanent).
+Proof.
+  intros H. unfold auth_sasl_nodes. apply auth_sasl_no_common.
+  intros m Hm Hin. apply advertised_in_spec in Hin as (ch & H1 & H2). exact (H m ch Hm H1 H2).
+Qed.
+
+(* a <failure/> that answers an element which WAS sent: the element names the first common
+   mechanism, and the error is permanent because of the reply *)
+Lemma failure_after_sending k server user secret reason m :
+  first_common (cred_mechs k) server m ->
+  auth_sasl k server user secret WOk (RFailure reason)
+  = ([auth_element m (plain_payload user secret)], ErrPermanent).
+Proof.
+  intros H. apply choose_mech_some in H. rewrite (auth_sasl_some _ _ _ _ _ _ _ H). reflexivity.
+Qed.
+
+(* any other reply to an element that was sent: an error that is NOT the permanent one *)
+Lemma other_reply_after_sending k server user secret r m :
+  first_common (cred_mechs k) server m -> r = ROther \/ r = RReadErr ->
+  auth_sasl k server user secret WOk r
+  = ([auth_element m (plain_payload user secret)], ErrOther).
+Proof.
+  intros H Hr. apply choose_mech_some in H. rewrite (auth_sasl_some _ _ _ _ _ _ _ H).
+  destruct Hr as [-> | ->]; reflexivity.
+Qed.
